@@ -15,3 +15,25 @@ Proof.
   exact (text_roundtrip_coreth2_lex ex_cls ex2_numcanon holo_c strict sp exc (proj1 exc_ok) exc_ok_cls2 (proj1 exc_sides) (proj2 exc_sides)).
 Qed.
 Print Assumptions exc_rt_lex_thm.
+
+(* ---- chains ending in a section target ------------------------------------------------------------------------------------------------------------------ *)
+Example ex_cls_flow_ok : cls_flow_ok ex_cls = true.
+Proof. vm_compute. reflexivity. Qed.
+Definition t1 : str := lit "[""x""" ++ AND ++ lit "OPT" ++ ARROW ++ lit "INDEXER]".            (* h3 with a string example *)
+Definition t2 : str := lit "[""a b""" ++ AND ++ lit "REQ" ++ AND ++ lit "OPT" ++ ARROW ++ lit "SELF]".
+Example t_text : t1 = chainT_text (lit "x") [lit "OPT"] (lit "INDEXER") /\ t2 = chainT_text (lit "a b") [lit "REQ"; lit "OPT"] (lit "SELF").
+Proof. split; reflexivity. Qed.
+Example t2_shape_thm : hsh_lex ex_cls t2 = chainT_shape (lit "a b") [lit "REQ"; lit "OPT"] (lit "SELF").
+Proof. exact (hsh_lex_chainT ex_cls (lit "a b") [lit "REQ"; lit "OPT"] (lit "SELF") ex_cls_and_ok ex_cls_flow_ok eq_refl eq_refl). Qed.
+Example t1_shape_computed : hsh_lex ex_cls t1 = chainT_shape (lit "x") [lit "OPT"] (lit "INDEXER").
+Proof. vm_compute. reflexivity. Qed.
+(* the parser-side class test of Rt/TokRoundTHolo.v accepts these shapes, and the model round-trips a document with them (computed; no document-level
+   theorem for this class) *)
+Definition holo_t (s : str) : bool := str_in s [t1; t2].
+Example t_sites : forallb (hsite_okb ex2_numcanon holo_t (hsh_lex ex_cls)) [t1; t2] = true.
+Proof. vm_compute. reflexivity. Qed.
+Example t_rt_computed :
+  let d := dd [NBlock (lit "B") None [NAssign (lit "F") (VHolo t1) [] (Some (lit "c")); NAssign (lit "G") (VHolo t2) [] None] []] [] in
+  parse_model ex_cls ex2_numcanon holo_t true (lines_of (emit (fun _ => false) d)) = PRDoc d [] [].
+Proof. vm_compute. reflexivity. Qed.
+Print Assumptions t2_shape_thm.
